@@ -20,6 +20,8 @@ import (
 	"strings"
 
 	"github.com/btcsuite/btcd/btcec/v2"
+	"github.com/btcsuite/btcd/btcutil/base58"
+	"github.com/btcsuite/btcd/btcutil/bech32"
 	"github.com/btcsuite/btcd/txscript"
 	"github.com/btcsuite/btcd/wire"
 	"github.com/vulpemventures/go-elements/address"
@@ -356,6 +358,8 @@ func genDecCases(r *Rng, n int, w *bufio.Writer) {
 			b, _ := base64.StdEncoding.DecodeString(sd.psetV0B64[r.Intn(len(sd.psetV0B64))])
 			if r.Chance(12) {
 				mk, payload = 10, withWitnessCount(r, 0, b)
+			} else if r.Chance(25) {
+				mk, payload = 12, insertPsetPair(r, b)
 			} else if r.Chance(40) {
 				mk, payload = 8, mutatePsetLength(r, b)
 			} else {
@@ -368,6 +372,8 @@ func genDecCases(r *Rng, n int, w *bufio.Writer) {
 			b, _ := base64.StdEncoding.DecodeString(sd.psetV2B64[r.Intn(len(sd.psetV2B64))])
 			if r.Chance(12) {
 				mk, payload = 10, withWitnessCount(r, 2, b)
+			} else if r.Chance(25) {
+				mk, payload = 12, insertPsetPair(r, b)
 			} else if r.Chance(40) {
 				mk, payload = 8, mutatePsetLength(r, b)
 			} else {
@@ -375,7 +381,11 @@ func genDecCases(r *Rng, n int, w *bufio.Writer) {
 			}
 		case "address":
 			var s string
-			mk, s = mutateText(r, genAddress(r))
+			if r.Chance(30) {
+				mk, s = 11, craftedAddress(r)
+			} else {
+				mk, s = mutateText(r, genAddress(r))
+			}
 			payload = []byte(s)
 		case "blech32":
 			hrp := []string{"lq", "el", "tlq", "a", ""}[r.Intn(5)]
@@ -383,7 +393,7 @@ func genDecCases(r *Rng, n int, w *bufio.Writer) {
 			for j := range data {
 				data[j] &= 31
 			}
-			s, _ := blech32.Encode(hrp, data, blech32.EncodingType(r.Intn(2)))
+			s, _ := blech32.Encode(hrp, data, []blech32.EncodingType{blech32.BLECH32, blech32.BLECH32M}[r.Intn(2)])
 			var t string
 			mk, t = mutateText(r, s)
 			payload = []byte(t)
@@ -664,6 +674,8 @@ var _ = payment.FromScript
 func init() {
 	gens["dec"] = genDecCases
 	checks["C12/dec"] = checkC12Dec
+	gens["decsys"] = genDecSysCases
+	checks["C12/decsys"] = checkC12Dec
 }
 
 // constant part of the allocation bound: what a decoder may use whatever the input (tables, a compiled regular
@@ -763,4 +775,236 @@ func withWitnessCount(r *Rng, version int, b []byte) []byte {
 		return b
 	}
 	return raw
+}
+
+// a key-value pair of a chosen type with short, empty or odd-sized key data and value, inserted at the start of one of
+// the maps of a PSET: the field decoders index into key data and values of the sizes they expect
+func insertPsetPair(r *Rng, ser []byte) []byte {
+	starts := []int{5}
+	offs, widths := psetLengthFields(ser)
+	_ = widths
+	// map starts: position 5 and the byte after every separator
+	p := 5
+	for p < len(ser) {
+		if ser[p] == 0 {
+			p++
+			starts = append(starts, p)
+			continue
+		}
+		// skip one pair using the length fields already located
+		moved := false
+		for i := 0; i+1 < len(offs); i += 2 {
+			if offs[i] == p {
+				vo := offs[i+1]
+				vl, w := readCompact(ser, vo)
+				p = vo + w + int(vl)
+				moved = true
+				break
+			}
+		}
+		if !moved {
+			break
+		}
+	}
+	at := starts[r.Intn(len(starts))]
+	if at > len(ser) {
+		at = 5
+	}
+	typ := byte(r.Intn(0x20))
+	if r.Chance(20) {
+		typ = 0xfc
+	}
+	kd := r.Bytes(r.Pick(0, 0, 1, 2, 4, 19, 20, 31, 32, 33, 64))
+	if typ == 0xfc && r.Chance(70) {
+		kd = append([]byte{4, 'p', 's', 'e', 't', byte(r.Intn(0x18))}, r.Bytes(r.Pick(0, 0, 1, 32, 33))...)
+	}
+	val := r.Bytes(r.Pick(0, 0, 1, 3, 4, 5, 8, 9, 32, 33, 36, 64, 65))
+	key := append([]byte{typ}, kd...)
+	pair := append(append(append(compact(uint64(len(key))), key...), compact(uint64(len(val)))...), val...)
+	out := append([]byte{}, ser[:at]...)
+	out = append(out, pair...)
+	return append(out, ser[at:]...)
+}
+
+func compact(v uint64) []byte {
+	switch {
+	case v < 0xfd:
+		return []byte{byte(v)}
+	case v <= 0xffff:
+		return []byte{0xfd, byte(v), byte(v >> 8)}
+	default:
+		return []byte{0xfe, byte(v), byte(v >> 8), byte(v >> 16), byte(v >> 24)}
+	}
+}
+
+func readCompact(b []byte, p int) (uint64, int) {
+	if p >= len(b) {
+		return 0, 1
+	}
+	switch b[p] {
+	case 0xfd:
+		if p+3 <= len(b) {
+			return uint64(b[p+1]) | uint64(b[p+2])<<8, 3
+		}
+	case 0xfe:
+		if p+5 <= len(b) {
+			return uint64(b[p+1]) | uint64(b[p+2])<<8 | uint64(b[p+3])<<16 | uint64(b[p+4])<<24, 5
+		}
+	}
+	return uint64(b[p]), 1
+}
+
+// an address string with a correct checksum whose payload has a length, version or prefix the address layer does not
+// expect: cutting or altering a real address never gets past the checksum, so these are built with the encoders
+func craftedAddress(r *Rng) string {
+	net := nets[r.Intn(3)]
+	payload := r.Bytes(r.Pick(0, 1, 2, 19, 20, 21, 31, 32, 33, 34, 35, 40, 41, 52, 53, 54, 64, 65, 66, 73, 74, 90))
+	ver := byte(r.Pick(0, 0, 1, 1, 2, 16, 17, 31))
+	switch r.Intn(4) {
+	case 0: // blech32 / blech32m under a confidential prefix (or a foreign one)
+		hrp := []string{net.Blech32, net.Blech32, net.Bech32, "xx"}[r.Intn(4)]
+		conv, err := blech32.ConvertBits(payload, 8, 5, true)
+		if err != nil {
+			return genAddress(r)
+		}
+		s, err := blech32.Encode(hrp, append([]byte{ver}, conv...), []blech32.EncodingType{blech32.BLECH32, blech32.BLECH32M}[r.Intn(2)])
+		if err != nil {
+			return genAddress(r)
+		}
+		return s
+	case 1: // bech32 / bech32m under an unconfidential prefix (or a confidential one)
+		hrp := []string{net.Bech32, net.Bech32, net.Blech32}[r.Intn(3)]
+		if len(payload) > 45 {
+			payload = payload[:r.Pick(0, 1, 2, 20, 32, 40, 41)]
+		}
+		conv, err := bech32.ConvertBits(payload, 8, 5, true)
+		if err != nil {
+			return genAddress(r)
+		}
+		var s string
+		if r.Bool() {
+			s, err = bech32.Encode(hrp, append([]byte{ver}, conv...))
+		} else {
+			s, err = bech32.EncodeM(hrp, append([]byte{ver}, conv...))
+		}
+		if err != nil {
+			return genAddress(r)
+		}
+		return s
+	case 2: // base58check with a known version byte and an unexpected payload length
+		v := byte(r.Pick(int(net.PubKeyHash), int(net.ScriptHash), int(net.Confidential)))
+		return base58.CheckEncode(payload, v)
+	default: // confidential base58: confidential prefix, then an inner version byte, then too little or too much
+		inner := append([]byte{byte(r.Pick(int(net.PubKeyHash), int(net.ScriptHash), 0))}, payload...)
+		return base58.CheckEncode(inner, net.Confidential)
+	}
+}
+
+// ---------- systematic decoder cases (family decsys; the count argument is ignored) ----------
+// (a) one key-value pair of every key type (and every pset proprietary subtype), with empty, one-byte and short key data
+// and an empty or one-byte value, inserted at the start of the global map, the first input map and the first output map
+// of a PSET v0 and a PSET v2 fixture; (b) checksum-valid segwit and confidential-segwit address strings of every payload
+// length 0..75 for each network, witness version 0 and 1, with the checksum constant of that version.
+func genDecSysCases(r *Rng, n int, w *bufio.Writer) {
+	sd := loadSeeds()
+	emitPairs := func(kind string, b64 []string) {
+		if len(b64) == 0 {
+			return
+		}
+		var ser []byte
+		for _, s := range b64 { // the smallest fixture with at least one input and one output
+			b, err := base64.StdEncoding.DecodeString(s)
+			if err == nil && (ser == nil || len(b) < len(ser)) && len(psetMapStarts(b)) >= 3 {
+				ser = b
+			}
+		}
+		if ser == nil {
+			return
+		}
+		starts := psetMapStarts(ser)
+		if len(starts) > 3 {
+			starts = starts[:3]
+		}
+		var keys [][]byte
+		for typ := 0; typ <= 0x22; typ++ {
+			for _, l := range []int{0, 1, 19, 31} {
+				keys = append(keys, append([]byte{byte(typ)}, make([]byte, l)...))
+			}
+		}
+		for sub := 0; sub <= 0x18; sub++ {
+			for _, l := range []int{0, 1, 31} {
+				keys = append(keys, append([]byte{0xfc, 4, 'p', 's', 'e', 't', byte(sub)}, make([]byte, l)...))
+			}
+		}
+		for _, at := range starts {
+			for _, key := range keys {
+				for _, vl := range []int{0, 1} {
+					val := make([]byte, vl)
+					pair := append(append(append(compact(uint64(len(key))), key...), compact(uint64(len(val)))...), val...)
+					out := append(append(append([]byte{}, ser[:at]...), pair...), ser[at:]...)
+					fmt.Fprintf(w, "decsys %s 12 %s\n", kind, hx(out))
+				}
+			}
+		}
+	}
+	emitPairs("psetv0", sd.psetV0B64)
+	emitPairs("psetv2", sd.psetV2B64)
+	for _, net := range nets {
+		for ver := 0; ver <= 1; ver++ {
+			for l := 0; l <= 75; l++ {
+				payload := make([]byte, l)
+				for i := range payload {
+					payload[i] = byte(i*7 + l)
+				}
+				if conv, err := blech32.ConvertBits(payload, 8, 5, true); err == nil {
+					if s, err := blech32.Encode(net.Blech32, append([]byte{byte(ver)}, conv...), []blech32.EncodingType{blech32.BLECH32, blech32.BLECH32M}[ver]); err == nil {
+						fmt.Fprintf(w, "decsys address 11 %s\n", hx([]byte(s)))
+					}
+				}
+				if l > 45 {
+					continue
+				}
+				if conv, err := bech32.ConvertBits(payload, 8, 5, true); err == nil {
+					var s string
+					if ver == 0 {
+						s, err = bech32.Encode(net.Bech32, append([]byte{0}, conv...))
+					} else {
+						s, err = bech32.EncodeM(net.Bech32, append([]byte{1}, conv...))
+					}
+					if err == nil {
+						fmt.Fprintf(w, "decsys address 11 %s\n", hx([]byte(s)))
+					}
+				}
+			}
+		}
+		for l := 0; l <= 60; l++ {
+			payload := make([]byte, l)
+			for _, v := range []byte{net.PubKeyHash, net.ScriptHash, net.Confidential} {
+				fmt.Fprintf(w, "decsys address 11 %s\n", hx([]byte(base58.CheckEncode(payload, v))))
+			}
+		}
+	}
+}
+
+// offsets at which the maps of a PSET start (after the magic, and after every separator)
+func psetMapStarts(ser []byte) []int {
+	starts := []int{5}
+	p := 5
+	for p < len(ser) {
+		if ser[p] == 0 {
+			p++
+			if p < len(ser) {
+				starts = append(starts, p)
+			}
+			continue
+		}
+		kl, w := readCompact(ser, p)
+		p += w + int(kl)
+		if p >= len(ser) {
+			break
+		}
+		vl, w2 := readCompact(ser, p)
+		p += w2 + int(vl)
+	}
+	return starts
 }
